@@ -4,7 +4,7 @@
 #  (1) compiles, (2) passes the repository's whole baseline suite, (3) makes its demonstration fail
 #  while the demonstration passes without it.  Results go to /verif/seeded/<id>/confirm.log.
 set -u
-ID=$1; SRC=$2; PKG=${3:-shuttle}; TEST=${4:-seeded_demo}
+ID=$1; SRC=$2; PKG=${3:-shuttle}; TEST=${4:-seeded_demo}; DST=${5:-}
 WT=/tmp/confirm-wt
 OUT=/verif/seeded/$ID
 mkdir -p $OUT
@@ -14,7 +14,8 @@ git -C /repo worktree add --detach $WT HEAD >/dev/null 2>&1 || { echo "cannot cr
 cd $WT
 {
 echo "== seed $ID  base $(git rev-parse --short HEAD)  $(date -u +%FT%TZ)"
-DEMO_DST=$(grep -m1 -o 'shuttle/tests/[a-z_]*\.rs\|wrappers/[A-Za-z0-9_/.-]*\.rs' $SRC/demo.rs | head -1)
+DEMO_DST=$DST
+[ -z "$DEMO_DST" ] && DEMO_DST=$(grep -m1 -o 'shuttle/tests/[a-z_]*\.rs\|wrappers/[A-Za-z0-9_/.-]*tests/[A-Za-z0-9_.-]*\.rs' $SRC/demo.rs | head -1)
 [ -z "$DEMO_DST" ] && DEMO_DST=shuttle/tests/seeded_demo.rs
 mkdir -p $(dirname $DEMO_DST); cp $SRC/demo.rs $DEMO_DST
 echo "-- demo WITHOUT the change ($DEMO_DST)"
